@@ -156,6 +156,54 @@ macro_rules! c07_range_row {
                     range_script!(d, script, mirrored, msg, nwords, $plist, "Reverse<Cursor> over the reversed words", ctx);
                 }
             }
+            // ---- the same message through an encoder whose sink is a reversed cursor (words are written downwards) -------
+            // The snapshots come from that encoder; the decoder reads the finished buffer through the same kind of backend.
+            // (No new draws.) A snapshot taken while words were held back is a KNOWN FINDING of the unchanged tree (F25:
+            // `RangeEncoder::pos` adds the number of held-back words to the sink's position although this sink counts
+            // downwards); it is reported under a signature of its own, every other failure under the usual ones.
+            {
+                use constriction::backends::{Cursor as Cur, Reverse as Rev};
+                let cap = nwords + 2 * (<$S>::BITS / <$W>::BITS) as usize + 2;
+                let mut e3 = RangeEncoder::<$W, $S, _>::with_backend(Rev(Cur::new_at_write_end(vec![0 as $W; cap])));
+                let mut snaps3 = vec![e3.pos()];
+                for (sym, tab) in msg.iter() {
+                    let r = with_prec!(tab.sel, $plist, |M| e3.encode_symbol(*sym, M::new(tab)).is_ok());
+                    vassume!(ctx, r, "foreign:C02/encode_failed");
+                    snaps3.push(e3.pos());
+                }
+                let buf = match e3.into_compressed() {
+                    Ok(Rev(cur)) => cur.into_buf_and_pos().0,
+                    Err(_) => {
+                        ctx.discard("foreign:C02/seal_failed_on_bounded_sink");
+                        return Ok(());
+                    }
+                };
+                let mut d = RangeDecoder::<$W, $S, _>::with_backend(Rev(Cur::new_at_write_end(buf))).unwrap_infallible();
+                ctx.label("enc:reversed_cursor_sink");
+                for step in script.iter() {
+                    if let Step::Seek(k, cnt) = *step {
+                        let held_back = inverted_snaps.contains(&k);
+                        let mut ok = d.seek(snaps3[k].clone()).is_ok();
+                        let mut at = k;
+                        if ok {
+                            for i in k..(k + cnt).min(n) {
+                                let (sym, tab) = &msg[i];
+                                let r = with_prec!(tab.sel, $plist, |M| d.decode_symbol(M::new(tab)).ok());
+                                if r != Some(*sym) {
+                                    ok = false;
+                                    at = i;
+                                    break;
+                                }
+                            }
+                        }
+                        if held_back {
+                            vcheck!(ok, "C07/range_snapshot_while_held_back_from_encoder_over_reversed_sink", "encoder over Reverse<Cursor>: snapshot {} (position {}) was taken while words were held back; seeking there and decoding fails at symbol {}", k, snaps3[k].0, at);
+                        } else {
+                            vcheck!(ok, "C07/range_wrong_symbol_after_seek", "encoder over Reverse<Cursor>: after seek to snapshot {} (position {}), symbol {} is not decoded correctly", k, snaps3[k].0, at);
+                        }
+                    }
+                }
+            }
             Ok(())
         }
     };
